@@ -6,6 +6,7 @@ or killed before one of its deviation points (every filesystem mutation + every 
 """
 import gc
 import os
+import shutil
 
 import numpy as np
 
@@ -417,6 +418,67 @@ class ConvModel(object):
         return out
 
 
+# ------------------------------------------------------------------ single runs on recordings the history search is too small for
+def single_cases(tier, seed):
+    out = []
+    for kind in ("NP2.4", "NP2.1"):
+        for fs in (30000.5, 29999.5, 30000):
+            for post_check in (True, False):
+                for nshank in ((None, [0], [1]) if kind == "NP2.4" else (None,)):
+                    out.append((kind, fs, post_check, nshank))
+    return out
+
+
+def single_check(case):
+    """
+    a recording long enough for a calibrated sampling rate to matter (60013 samples at 30000.5 / 29999.5 Hz), and conversions restricted to a subset of the shanks:
+    with delete_original=True the original may only go once every sample of every channel is in the per-shank files
+    """
+    import neuropixel
+    from mc.engine import Res
+    from checks import c03
+    kind, fs, post_check, nshank = case
+    root = os.path.join(synth.proc_scratch(), "c04s")
+    np2.clean(root)
+    ns = 60013
+    sites = _sites(kind)
+    data = np2.content(ns, 5, "ramp")
+    ap = np2.make_session(root, kind, sites, data, fs=fs)
+    sha = np2.sha1(ap)
+    ctx = "%s recording of %d samples at %r Hz, process() with delete_original=True post_check=%s%s" % (kind, ns, fs, post_check, "" if nshank is None else " restricted to shanks %r" % nshank)
+    seen = {}
+    status = None
+    conv = None
+    try:
+        conv = neuropixel.NP2Converter(ap, post_check=post_check, compress=False, delete_original=True)
+        if nshank is None:
+            conv.init_params(nwindow=20004)
+        else:
+            conv.init_params(nwindow=20004, nshank=nshank)
+        status = conv.process()
+    except BaseException as e:      # noqa  a refusal or a failed verification is fine - as long as the original is still there
+        status = "%s: %s" % (type(e).__name__, str(e)[:80])
+    finally:
+        try:
+            conv.sr.close()
+        except Exception:
+            pass
+    if os.path.exists(str(ap)):
+        if np2.sha1(ap) != sha:
+            seen["single:original-modified"] = "%s (returned %r): the original is still there but its content changed" % (ctx, status)
+    else:
+        sub = {}
+        if kind == "NP2.4":
+            c03._compare_split(root, data, sites, sub, ctx)
+        else:
+            f = os.path.join(root, np2.LABEL, np2.STEM + ".ap.bin")
+            sub["missing"] = "the AP file is gone"
+        for k, m in sub.items():
+            seen.setdefault("single:original-lost", "%s (returned %r): the original has been deleted although the per-shank files do not hold all of it: %s" % (ctx, status, m))
+    shutil.rmtree(root, ignore_errors=True)
+    return Res(list(seen.items()), o=(kind, fs != 30000, nshank is not None, os.path.exists(str(ap))), tr=1)
+
+
 def _evstr(e):
     return "run(%s, overwrite=%s, post_check=%s, compress=%s, delete_original=%s%s)" % (
         e["target"], e["overwrite"], e["post_check"], e["compress"], e["delete_original"], "" if e.get("again") is None else ", then again overwrite=%s" % e["again"])
@@ -505,6 +567,8 @@ CHECK = {
         Clause("histories-NP2.4@" + ODD_NAMES[0], "NP2.4 whose file name has no '.ap.' component", run=_mk("NP2.4", "bin", ODD_NAMES[0]), replay=_replay),
         Clause("histories-NP2.1@" + ODD_NAMES[1], "NP2.1 whose run name contains 'ap'", run=_mk("NP2.1", "bin", ODD_NAMES[1]), replay=_replay),
         Clause("histories-NP2.4@" + ODD_NAMES[1], "NP2.4 whose run name contains 'ap'", run=_mk("NP2.4", "bin", ODD_NAMES[1]), replay=_replay),
+        Clause("single-runs", "single conversions with delete_original=True of 60013-sample recordings at calibrated sampling rates, and restricted to a subset of the shanks: the original goes only "
+               "when the per-shank files hold every sample of every channel", cases=single_cases, check=single_check),
         Clause("histories-NP1", "NP1 recordings are refused and untouched", run=_mk("NP1"), replay=_replay),
     ],
 }
